@@ -209,7 +209,7 @@ def main():
                     mstructs = sorted(x.split("=")[0] for x in re.findall(r"(?:^|,)(\w+=)", mm.group(4))) if mm.group(4) else []
                     mblname = None if mbl == "-" else names[int(mbl)]
                     got = (o, r.get("stage"), r.get("blamed"), sorted(r.get("axes") or []), sorted(x.split("=")[0] for x in (r.get("structs") or [])))
-                    exp = ("TypeCheckError", mstage, mblname, sorted(mbind), mstructs)
+                    exp = ("TypeCheckError", mstage, mblname, sorted(x.replace(" ", "") for x in mbind), mstructs)     # (the message parser drops spaces, also those inside '?'-leaf keys)
                     if got != exp:
                         kind = "property" if (o != "TypeCheckError" or got[3:] != exp[3:]) else "correspondence"
                         R.violation(kind, "error report of a call with PyTree parameters differs from the model: implementation %s, model %s: %s" % (got, exp, desc),
